@@ -16,7 +16,13 @@ rc, out = sh(f"git -C /repo worktree add -q --detach {wt} HEAD")
 assert rc == 0, out
 res = {"property": prop, "name": name, "base_commit": sh("git -C /repo rev-parse --short HEAD")[1].strip()}
 try:
-    tests = [f for f in glob.glob(os.path.join(src, "*_test.go"))]
+    tests = [f for f in glob.glob(os.path.join(src, "*_test.go")) + glob.glob(os.path.join(src, "*_test.go.txt"))
+             + glob.glob(os.path.join(src, "*.go.txt"))]
+    tests = sorted(set(tests))
+    def tname(t):
+        b = os.path.basename(t)
+        b = b[:-4] if b.endswith(".txt") else b
+        return b if b.endswith("_test.go") else b[:-3] + "_test.go"
     files = meta.get("files_changed", [])
     pkgs = sorted({"./" + os.path.dirname(f) for f in files})
     # where does the demo go? meta demo_cmd names the package; fall back to the first changed package
@@ -25,7 +31,7 @@ try:
     m = re.search(r"(\./[\w/]+)/?\s*$", meta.get("demo_cmd", ""))
     if m: demo_pkg = m.group(1)
     for t in tests:
-        shutil.copy(t, os.path.join(wt, demo_pkg, os.path.basename(t)))
+        shutil.copy(t, os.path.join(wt, demo_pkg, tname(t)))
     run_names = "|".join(sorted(set(re.findall(r"func (Test\w+)\(", "".join(open(t).read() for t in tests)))))
     demo = f"go test -count=1 -run '^({run_names})$' {demo_pkg}/"
     rc0, o0 = sh(demo, cwd=wt)
@@ -39,7 +45,7 @@ try:
     res["demo_cmd"] = demo
     # existing tests of the touched packages without the demo test
     for t in tests:
-        os.remove(os.path.join(wt, demo_pkg, os.path.basename(t)))
+        os.remove(os.path.join(wt, demo_pkg, tname(t)))
     tp = " ".join(p + "/..." for p in pkgs)
     rct, ot = sh(f"go test -count=1 {tp}", cwd=wt)
     res["existing_tests"] = {"cmd": f"go test -count=1 {tp}", "result": "pass" if rct == 0 else "FAIL: " + ot[-800:]}
@@ -58,8 +64,9 @@ dst = f"/verif/seeded/{prop}-{name}"
 if ok:
     os.makedirs(dst, exist_ok=True)
     shutil.copy(os.path.join(src, "patch.diff"), dst)
-    for t in glob.glob(os.path.join(src, "*_test.go")):
-        shutil.copy(t, os.path.join(dst, os.path.basename(t) + ".txt"))  # .txt: not part of any Go package
+    for t in tests:
+        b = os.path.basename(t)
+        shutil.copy(t, os.path.join(dst, b if b.endswith(".txt") else b + ".txt"))  # .txt: not part of any Go package
     m2 = dict(meta); m2["verification"] = res
     json.dump(m2, open(os.path.join(dst, "meta.json"), "w"), indent=1)
 print(json.dumps(res, indent=1))
